@@ -141,3 +141,17 @@ reg("C13",
     level_text="rr_exactly_once, rr_end_only_when_all_exhausted and report_split_invariant are proved in Coq for every number of inputs and all lengths (unbounded) about a Gallina model of NewRoundRobinDecoder, the latter composed with C10's metrics_perm; the exact delivery order predicted by the extracted model is compared with the real decoder and the real `vegeta encode`/`report` commands on every run.",
     technique="Coq induction over the drain (model) + permutation invariance; differential correspondence incl. the CLI",
     timeout={"quick": 600, "thorough": 3000})
+
+reg("C20",
+    rule="a case = 0..2000 results (every 50th index 10^4) over up to 3 methods x 3 URLs x 5 status codes and 3 "
+         "error messages, latencies on/just around every default bucket bound, observed sequentially or from 16 "
+         "goroutines (every third index) into a fresh registry, then gathered; non-trivial = at least 2 results",
+    clauses={1: "exported label sets differ from the observed ones", 2: "bytes-in counter != sum", 3: "bytes-out counter != sum",
+             4: "histogram sample count != number of results", 5: "histogram sum != total seconds",
+             6: "cumulative bucket counts inconsistent with the latencies", 7: "failure-counter children differ from the (label set, message) pairs that occurred",
+             8: "failure counter != number of results with that error"},
+    assumptions=["prometheus/client_golang is library code, modelled at the level of what a registry exports (additive counter vectors, cumulative histogram buckets); its atomicity under concurrent Observe is assumed and sampled (16 goroutines)",
+                 "totals below 2^53 (float64 counters); histogram sum compared within 2^-30 relative (float accumulation)"],
+    level_text="prom_sums_bytes, prom_sums_histogram, prom_failures, prom_failure_children and prom_perm are proved in Coq for every observation sequence (unbounded) about a Gallina model of Metrics.Observe; tied to the Go code on every run by gathering a real registry and comparing with the extracted model and with the reference sums.",
+    technique="Coq induction over the observation sequence; differential correspondence on gathered metric families",
+    timeout={"quick": 600, "thorough": 3000})
